@@ -1,0 +1,7 @@
+//go:build verif
+
+package crdt
+
+// VerifQueueLen returns how many operations accepted by LogPin/LogUnpin the
+// batch worker has not taken yet (length of the batching queue).
+func (css *Consensus) VerifQueueLen() int { return len(css.batchItemCh) }
